@@ -462,6 +462,7 @@ func c02(r *Report, s *Sem) {
 		})
 	}
 
+	r.Import(s, "C01", "R7", "R8", "accepted ⇒ re-encodable for addresses and media types: their parsers return only verbatim pieces of the input and their text forms re-assemble them, so parsing the text form of an accepted value yields it again (an escaping applied on one side only changes the value on the next hop)", 3)
 	R6 := r.Rule("R6", "accepted ⇒ re-encodable: co-presence symmetry between decoder and encoder (a member the encoder emits only together with another field is stored by the decoder only when that other member is on the wire), so what was accepted does not change under re-encoding", 10)
 	checkCoPresence(r, R6)
 
